@@ -55,6 +55,27 @@ impl Case {
     fn main_src(&self) -> String {
         self.main_override.clone().unwrap_or_else(|| self.sc.main_src())
     }
+    /// The scenario as the engine sees it after the literal source variants that REPLACE a
+    /// partial's body (empty / blank-only source): the cost estimate must be made for this one (a
+    /// partial that no longer breaks a loop or rebinds a variable can turn a tame program into an
+    /// explosive one).
+    fn effective(&self) -> Scenario {
+        let mut sc = self.sc.clone();
+        let mut i = 0;
+        for (_, d) in sc.partials.iter_mut() {
+            if matches!(d, PDef::Missing) {
+                continue;
+            }
+            match self.source_variant.get(i).copied().unwrap_or(0) {
+                4 => *d = PDef::Ok(vec![]),
+                8 => *d = PDef::Ok(vec![crate::ast::Node::Text("\n".into())]),
+                9 => *d = PDef::Ok(vec![crate::ast::Node::Text(" \u{a0}\t".into())]),
+                _ => {}
+            }
+            i += 1;
+        }
+        sc
+    }
 }
 
 const OTHER: &str = "{% assign q = 'other' %}{{ q }}{% for i in (1..2) %}{% cycle 'a', 'b' %}{% endfor %}";
@@ -103,7 +124,8 @@ fn run_all(c: &Case, sources: &[(String, String)], renders: u8) -> Result<Vec<Ve
 
 pub fn oracle(c: &Case, obs: &mut Obs) -> Check {
     let sc = &c.sc;
-    if !interp::cost_ok(&crate::ast::resolve_trim(&sc.main), &sc.data, &sc.defs()) {
+    let eff = c.effective();
+    if !interp::cost_ok(&crate::ast::resolve_trim(&sc.main), &sc.data, &sc.defs()) || !interp::cost_ok(&crate::ast::resolve_trim(&eff.main), &eff.data, &eff.defs()) {
         obs.class("over_budget_skipped");
         return Ok(());
     }
